@@ -174,6 +174,29 @@ class Batch:
         self.lines, self.cbs = [], []
 
 
+def documented_recip_axis(n, s, shift, hc):
+    """(min, stride, shape) of one transformed axis by the DOCUMENTED formula of reciprocal_grid:
+    stride 2pi/(n s); xi0 = -pi/s (shifted) or -pi/s*(1 - 1/n) (symmetric); half-complex keeps
+    the first n//2+1 nodes."""
+    xi0 = -PI / s if shift else -PI / s * (1 - 1.0 / n)
+    return xi0, 2 * PI / (n * s), (n // 2 + 1 if hc else n)
+
+
+def grid_axis_problem(rg, ax, n, s, shift, hc):
+    """ORACLE: one axis of a reciprocal grid against the documented formula; None if it agrees."""
+    xi0, sig, m = documented_recip_axis(n, s, shift, hc)
+    if rg.shape[ax] != m:
+        return 'axis {}: shape {} != {}'.format(ax, rg.shape[ax], m)
+    ref = xi0 + np.arange(m) * sig
+    dev = float(np.max(np.abs(rg.coord_vectors[ax] - ref)))
+    if dev > 1e-12 * PI / s:
+        return ('axis {} (n={}, shift={}, halved={}): nodes deviate from xi0 + j*2pi/(n s) by {:.3g} '
+                '(= {:.3g} strides); got [{:.6g} .. {:.6g}], documented [{:.6g} .. {:.6g}]'.format(
+                    ax, n, shift, hc, dev, dev / sig, rg.coord_vectors[ax][0],
+                    rg.coord_vectors[ax][-1], ref[0], ref[-1]))
+    return None
+
+
 # --------------------------------------------------------------------------
 # A. grids
 
@@ -272,11 +295,25 @@ def run_grids(ctx, B):
             B.add('real m={} hc={} odd={} rstride={}'.format(
                 rg.shape[0], int(hc), n % 2, fs(Fraction(2, n))), cb2)
     # multi-axis: per-axis shift lists and axes subsets leave other axes alone
-    for shape, axes, shifts, hc in [((4, 5), (0, 1), (True, False), False),
-                                    ((4, 5), (1,), (False,), False),
-                                    ((3, 4, 5), (0, 2), (False, True), True),
-                                    ((5, 4), (1, 0), (True, False), True),
-                                    ((3, 6), (0, 1), (False, True), True)]:
+    nd_cases = [((4, 5), (0, 1), (True, False), False),
+                ((4, 5), (1,), (False,), False),
+                ((3, 4, 5), (0, 2), (False, True), True),
+                ((5, 4), (1, 0), (True, False), True),
+                ((3, 6), (0, 1), (False, True), True)]
+    # every axes subset/order x per-axis shift mix x halfcomplex on 2-d and 3-d grids with mixed
+    # parities; in particular subsets that leave out the LAST array axis, and orders whose
+    # last transformed axis is not the last array axis
+    for shape in ((4, 5), (5, 4), (3, 4, 5), (4, 3, 2)):
+        for axes in axes_subsets(len(shape)):
+            for shifts in itertools.product((True, False), repeat=len(axes)):
+                for hc in (False, True):
+                    nd_cases.append((shape, axes, shifts, hc))
+    if ctx.quick:
+        extra = nd_cases[5:]
+        ctx.rng.shuffle(extra)
+        must = [c for c in extra if c[3] and (len(c[0]) - 1) not in c[1]]
+        nd_cases = nd_cases[:5] + must + extra[:60]
+    for shape, axes, shifts, hc in nd_cases:
         grid = odl.uniform_grid([0.5] * len(shape), [0.5 + (k - 1) * 0.5 for k in shape], shape)
         rg, e = safe(lambda: reciprocal_grid(grid, shift=shifts, axes=axes, halfcomplex=hc))
         desc = {'kind': 'recip_grid_nd', 'shape': shape, 'axes': axes, 'shifts': shifts, 'hc': hc}
@@ -292,6 +329,11 @@ def run_grids(ctx, B):
                 continue
             sh = shifts[list(axes).index(ax)]
             h = hc and ax == axes[-1]
+            pr = grid_axis_problem(rg, ax, shape[ax], 0.5, sh, h)
+            if pr is not None:
+                viol(ctx, 'reciprocal_grid nd axes={} shifts={} halfcomplex={} {}'.format(
+                    axes, shifts, hc, 'last-array-axis-transformed' if (len(shape) - 1) in axes
+                    else 'last-array-axis-not-transformed'), pr, desc)
 
             def cb(ans, rg=rg, ax=ax, desc=desc):
                 f = fields(ans)
@@ -686,6 +728,7 @@ def ft_configs(ctx):
                             for impl in ('numpy', 'pyfftw'):
                                 cfgs.append((shape, axes, shifts, dt, hc, sign, impl))
     rng.shuffle(cfgs)
+    cfgs_all = list(cfgs)
     if ctx.quick:
         keep = {}
         for c in cfgs:
@@ -694,8 +737,19 @@ def ft_configs(ctx):
             if len(keep.setdefault(k, [])) < 2:
                 keep[k].append(c)
         cfgs = [c for v in keep.values() for c in v]
+        # axes subsets / orders whose last transformed axis is not the last array axis, crossed
+        # with halfcomplex and the admissible per-axis shift mixes
+        special = [c for c in cfgs_all if c[3] == 'float64' and c[5] == '-' and
+                   c[1][-1] != len(c[0]) - 1 and len(c[0]) >= 2]
+        seen = set()
+        for c in special:
+            k = (len(c[0]), c[1], c[2], c[4], c[6], c[0][c[1][-1]] % 2)
+            if k not in seen and (c[4] or rng.random() < 0.25):
+                seen.add(k)
+                cfgs.append(c)
     else:
-        cfgs = cfgs[:3000]
+        special = [c for c in cfgs_all if c[4] and c[1][-1] != len(c[0]) - 1 and len(c[0]) >= 2]
+        cfgs = cfgs[:3000] + special[:600]
     return cfgs
 
 
@@ -746,6 +800,13 @@ def run_ft_case(ctx, B, desc, oracle_only=False):
     if e is not None:
         viol(ctx, ft_key(desc, 'constructor'), repr(e)[:300], desc)
         return ['ctor']
+    # ORACLE: the range grid against the documented reciprocal grid, per transformed axis
+    for ax, sh in zip(axes, shifts):
+        pr = grid_axis_problem(F.range.grid, ax, shape[ax], float(sp.grid.stride[ax]), sh,
+                               hc and ax == axes[-1])
+        if pr is not None:
+            probs.append(('range-grid', 'range grid of the operator is not the documented '
+                          'reciprocal grid: ' + pr))
     ref = ft_direct(sp, x, axes, shifts, sign, hc)
     scale = max(1.0, float(np.max(np.abs(ref))))
     tol = tol_for(dt, scale) * 10
@@ -1122,7 +1183,11 @@ def run_padmode(ctx, B):
 
 # --------------------------------------------------------------------------
 
+_STATE = {'extraction_broken': False}
+
+
 def regenerate(ctx):
+    _STATE['extraction_broken'] = False
     out = []
     for name, mod in (('extract(PAD_MODES_ODL2PYWT -> Gen/WaveletPad.lean)', extract_waveletpad),
                       ('extract(reciprocal_grid, dft_postprocess_data tables -> Gen/RecipGrid.lean)',
@@ -1131,6 +1196,7 @@ def regenerate(ctx):
             changed = mod.regenerate()
             out.append((name, True, 'regenerated' if changed else 'unchanged'))
         except Exception as e:  # grammar no longer matches the source: broken obligation
+            _STATE['extraction_broken'] = True
             out.append((name, False, '{}: {}'.format(type(e).__name__, e)))
     return out
 
@@ -1150,6 +1216,15 @@ def run(ctx):
     run_padmode(ctx, B)
     run_wavelets(ctx, B)
     B.flush()
+    # The runner starts `search` only when NO violation was seen; the open known finding is seen
+    # on every run, so a broken extraction / a disagreement with only known violations would
+    # never be searched.  Do it here.
+    known = core.load_known('C18')
+    unexplained = [v for v in ctx.violations if core.match_known(v, known) is None]
+    if (ctx.disagreements or _STATE['extraction_broken']) and not unexplained:
+        ctx.notes.append('deep search started from run(): extraction broken={} disagreements={}'.format(
+            _STATE['extraction_broken'], len(ctx.disagreements)))
+        search(ctx, [])
 
 
 def search(ctx, broken):
